@@ -19,7 +19,11 @@
 //!                                                    6 number of #[asn] items != number of definitions)
 //!            per-definition stages: 10 parse_asn_definition Err, 11 parse_asn_definition None,
 //!                                   12 to_rust_keep_names, 13 expand, 14 expanded text is not a Rust file
-//! op 3402  -> 0 n (ns scope name)*n m (scope name type value)*m   identifiers and constant declarations found in the
+//! ops 3402 / 3403 take an optional FIRST argument `-<options>` (a negative number; absent = 0 = RustCodeGenerator::default()):
+//!          bit 0 (1) set_fields_pub(false)      bit 1 (2) set_fields_have_getter_and_setter(true)
+//! op 3402  -> 0 n (ns scope name)*n m (scope name type value)*m a (scope ident)*a
+//!             the last list: every field access `self.<ident>` in the bodies of the inherent impl blocks (scope = the type)
+//!             identifiers and constant declarations found in the
 //!             generated text (line scanner, no Rust parser involved, so illegal identifiers come out verbatim) plus
 //!             the item names of the macro expansion where the re-parse worked.
 //!               ns: 0 module  1 type (file scope)  2 value (file scope)  3 field  4 variant  5 associated item
@@ -245,6 +249,14 @@ fn dump_def(Definition(name, rust): &Definition<Rust>) -> Vec<I> {
 
 // ------------------------------------------------------------------ the pipeline
 
+/// a leading negative argument carries the generator options (see the module documentation)
+fn split_options(a: &[I]) -> (I, &[I]) {
+    match a.first() {
+        Some(f) if *f < 0 => (-*f, &a[1..]),
+        _ => (0, a),
+    }
+}
+
 fn text_of(a: &[I]) -> Vec<String> {
     a.split(|c| *c == 0)
         .map(|part| part.iter().map(|c| char::from_u32(*c as u32).unwrap_or('\u{fffd}')).collect::<String>())
@@ -281,8 +293,18 @@ fn front(texts: &[String]) -> Result<Vec<Model<Rust>>, Vec<I>> {
 }
 
 fn generate(rust: &Model<Rust>) -> Result<(String, String), Vec<I>> {
+    generate_with(rust, 0)
+}
+
+fn generate_with(rust: &Model<Rust>, options: I) -> Result<(String, String), Vec<I>> {
     let r = crate::catch(|| {
         let mut g = RustCodeGenerator::default();
+        if options & 1 != 0 {
+            g.set_fields_pub(false);
+        }
+        if options & 2 != 0 {
+            g.set_fields_have_getter_and_setter(true);
+        }
         g.add_model(rust.clone());
         g.to_string().map(|v| v.into_iter().next())
     });
@@ -559,6 +581,24 @@ fn skip_attr(s: &str) -> &str {
 struct Idents {
     names: Vec<(I, String, String)>,
     consts: Vec<(String, String, String, String)>,
+    /// (type of the inherent impl block, identifier) of every `self.<identifier>` in a body
+    accesses: Vec<(String, String)>,
+}
+
+/// the identifiers that follow `self.` in one line (`self.0` of a tuple struct and method calls `self.f(` are no field accesses)
+fn self_accesses(line: &str) -> Vec<String> {
+    let mut out = Vec::new();
+    let mut rest = line;
+    while let Some(p) = rest.find("self.") {
+        let before_ok = rest[..p].chars().last().map_or(true, |c| !(c.is_alphanumeric() || c == '_'));
+        let after = &rest[p + 5..];
+        let name = name_at(after);
+        if before_ok && !name.is_empty() && !name.chars().next().unwrap().is_ascii_digit() && !after[name.len()..].starts_with('(') {
+            out.push(name.to_string());
+        }
+        rest = after;
+    }
+    out
 }
 
 fn parse_const_decl(rest: &str) -> Option<(String, String, String)> {
@@ -662,6 +702,11 @@ fn scan_generated(text: &str, ids: &mut Idents) {
             }
             Ctx::Impl(n) => {
                 let tt = t.trim_start();
+                if depth_in_impl >= 2 {
+                    for a in self_accesses(tt) {
+                        ids.accesses.push((n.clone(), a));
+                    }
+                }
                 if depth_in_impl == 1 {
                     if let Some(r) = tt.strip_prefix("pub const fn ").or_else(|| tt.strip_prefix("pub fn ")).or_else(|| tt.strip_prefix("fn ")) {
                         ids.names.push((5, n.clone(), name_at(r).to_string()));
@@ -688,19 +733,20 @@ fn scan_generated(text: &str, ids: &mut Idents) {
 }
 
 fn op_3402(a: &[I]) -> Vec<I> {
+    let (options, a) = split_options(a);
     let texts = text_of(a);
     let rusts = match front(&texts) {
         Ok(r) => r,
         Err(e) => return e,
     };
-    let mut ids = Idents { names: Vec::new(), consts: Vec::new() };
+    let mut ids = Idents { names: Vec::new(), consts: Vec::new(), accesses: Vec::new() };
     for rust in &rusts {
-        let (fname, text) = match generate(rust) {
+        let (fname, text) = match generate_with(rust, options) {
             Ok(f) => f,
             Err(e) => return e,
         };
         ids.names.push((0, String::new(), fname.strip_suffix(".rs").unwrap_or(&fname).to_string()));
-        let mut local = Idents { names: Vec::new(), consts: Vec::new() };
+        let mut local = Idents { names: Vec::new(), consts: Vec::new(), accesses: Vec::new() };
         scan_generated(&text, &mut local);
         // scopes are per generated file
         for (ns, scope, name) in local.names {
@@ -709,6 +755,9 @@ fn op_3402(a: &[I]) -> Vec<I> {
         }
         for (scope, n, t, v) in local.consts {
             ids.consts.push((format!("{}::{}", fname, scope), n, t, v));
+        }
+        for (scope, a) in local.accesses {
+            ids.accesses.push((format!("{}::{}", fname, scope), a));
         }
         if let Ok(file) = syn::parse_file(&text) {
             for (attr, item) in asn_items(&file) {
@@ -731,10 +780,16 @@ fn op_3402(a: &[I]) -> Vec<I> {
         p_str(&mut out, t);
         p_str(&mut out, v);
     }
+    out.push(ids.accesses.len() as I);
+    for (scope, a) in &ids.accesses {
+        p_str(&mut out, scope);
+        p_str(&mut out, a);
+    }
     out
 }
 
 fn op_3403(a: &[I]) -> Vec<I> {
+    let (options, a) = split_options(a);
     let texts = text_of(a);
     let rusts = match front(&texts) {
         Ok(r) => r,
@@ -742,7 +797,7 @@ fn op_3403(a: &[I]) -> Vec<I> {
     };
     let mut out = vec![0, rusts.len() as I];
     for rust in &rusts {
-        match generate(rust) {
+        match generate_with(rust, options) {
             Ok((f, t)) => {
                 p_str(&mut out, &f);
                 p_str(&mut out, &t);
